@@ -118,6 +118,9 @@ pub struct Hist {
     pub now: u64,
     /// headers of valid blocks that were announced but (so far) not delivered
     pub hidden: Vec<Hidden>,
+    /// announced headers that are certainly stored by the canister / that may still be stored
+    pub ann_must: Vec<Hidden>,
+    pub ann_may: Vec<Hidden>,
 }
 
 #[derive(Clone, Debug)]
@@ -127,6 +130,7 @@ pub struct Hidden {
     pub time: u32,
     pub height: u32,
     pub header: Vec<u8>,
+    pub block: Option<bitcoin::Block>,
 }
 
 fn short(h: &H) -> String {
@@ -191,6 +195,8 @@ impl Hist {
             upgrades: 0,
             now: world::MOCK_NOW_SECS,
             hidden: vec![],
+            ann_must: vec![],
+            ann_may: vec![],
         }
     }
 
@@ -796,10 +802,14 @@ impl Hist {
             self.uniq += 1;
             let cb = gen::coinbase_tx(height + 1, self.uniq, vec![(1, self.uni.addrs[0].script.clone())]);
             time += self.rng.range(1, 600) as u32;
+            if time as u64 > self.now + 7000 {
+                self.now = time as u64 - 3600;
+                ic_btc_canister::runtime::mock_time::set_mock_time_secs(self.now);
+            }
             let b = gen::make_block(self.cfg.net, parent, time, vec![cb], true);
             let hash = gen::hash_of(&b);
             let header = gen::header_bytes(&b.header);
-            self.hidden.push(Hidden { hash, parent, time, height: height + 1, header: header.clone() });
+            self.hidden.push(Hidden { hash, parent, time, height: height + 1, header: header.clone(), block: Some(b.clone()) });
             if self.hidden.len() > 24 {
                 self.hidden.remove(0);
             }
@@ -808,5 +818,54 @@ impl Hist {
             height += 1;
         }
         out
+    }
+}
+
+impl Hist {
+    /// Records what the canister does with an announced-header list that it processes
+    /// (all blocks of the response were fine): headers are taken in order until the first one
+    /// that does not decode, does not validate or does not connect.
+    pub fn note_announced(&mut self, next: &[Vec<u8>]) {
+        for item in next {
+            let Some(hd) = self.hidden.iter().find(|x| &x.header == item).cloned() else {
+                // garbage, a header of a block in the tree, an unconnected header: processing stops
+                break;
+            };
+            // whatever was offered may be stored
+            if !self.ann_may.iter().any(|x| x.hash == hd.hash) {
+                self.ann_may.push(hd.clone());
+            }
+            if self.ann_must.iter().any(|x| x.hash == hd.hash) {
+                continue; // already stored: skipped
+            }
+            if self.model.is_live(&hd.hash) {
+                break; // its block is already in the tree: refused, processing stops
+            }
+            let connected = self.model.is_live(&hd.parent) || self.ann_must.iter().any(|x| x.hash == hd.parent);
+            if !connected {
+                break;
+            }
+            self.ann_must.push(hd);
+        }
+    }
+
+    /// After blocks arrived or the anchor moved.
+    pub fn prune_announced(&mut self) {
+        let sh = self.model.stable_height();
+        let live = |m: &crate::model::Model, h: &H| m.is_live(h);
+        // delivered
+        let model = &self.model;
+        self.ann_must.retain(|x| !live(model, &x.hash) && x.height > sh);
+        self.ann_may.retain(|x| !live(model, &x.hash) && x.height > sh);
+        // connectivity of the certain set: root must still be live, through certain headers only
+        loop {
+            let before = self.ann_must.len();
+            let snapshot = self.ann_must.clone();
+            let model = &self.model;
+            self.ann_must.retain(|x| model.is_live(&x.parent) || snapshot.iter().any(|y| y.hash == x.parent));
+            if self.ann_must.len() == before {
+                break;
+            }
+        }
     }
 }
